@@ -476,30 +476,20 @@ impl CheckContext {
         // Build allowlist rules from structure.rules
         let mut allowlist_rules = Vec::new();
         for rule in &config.structure.rules {
-            // Include rules that have allowlists, denylists, or naming patterns
-            if !rule.allow_extensions.is_empty()
-                || !rule.allow_patterns.is_empty()
-                || !rule.allow_files.is_empty()
-                || !rule.allow_dirs.is_empty()
-                || !rule.deny_extensions.is_empty()
-                || !rule.deny_patterns.is_empty()
-                || !rule.deny_files.is_empty()
-                || !rule.deny_dirs.is_empty()
-                || rule.file_naming_pattern.is_some()
-            {
-                let allowlist_rule = AllowlistRuleBuilder::new(rule.scope.clone())
-                    .with_extensions(rule.allow_extensions.clone())
-                    .with_patterns(rule.allow_patterns.clone())
-                    .with_allow_files(rule.allow_files.clone())
-                    .with_allow_dirs(rule.allow_dirs.clone())
-                    .with_deny_extensions(rule.deny_extensions.clone())
-                    .with_deny_patterns(rule.deny_patterns.clone())
-                    .with_deny_files(rule.deny_files.clone())
-                    .with_deny_dirs(rule.deny_dirs.clone())
-                    .with_naming_pattern(rule.file_naming_pattern.clone())
-                    .build()?;
-                allowlist_rules.push(allowlist_rule);
-            }
+            // Every rule is kept (also one without allow/deny/naming fields) so that the
+            // last declared matching rule is the one consulted, as for the limits.
+            let allowlist_rule = AllowlistRuleBuilder::new(rule.scope.clone())
+                .with_extensions(rule.allow_extensions.clone())
+                .with_patterns(rule.allow_patterns.clone())
+                .with_allow_files(rule.allow_files.clone())
+                .with_allow_dirs(rule.allow_dirs.clone())
+                .with_deny_extensions(rule.deny_extensions.clone())
+                .with_deny_patterns(rule.deny_patterns.clone())
+                .with_deny_files(rule.deny_files.clone())
+                .with_deny_dirs(rule.deny_dirs.clone())
+                .with_naming_pattern(rule.file_naming_pattern.clone())
+                .build()?;
+            allowlist_rules.push(allowlist_rule);
         }
 
         let structure_scan_config = StructureScanConfig::builder()
